@@ -220,9 +220,10 @@ def monitor(c, out):
     pub = None
     for j, u in enumerate(ups):
         stv, ridv, own = rest[3 * ns + 3 * j:3 * ns + 3 * j + 3]
-        if own != 1:
+        resolved = all(ty != 2 or cid in table for cid, ty in u)
+        if own != 1 and (resolved or pub is not None):
             return ("advertised Bloom filter does not contain the daemon's own server id", where)
-        if all(ty != 2 or cid in table for cid, ty in u):
+        if resolved:
             if not u:
                 want = (ls, KISS["XNON"])
             else:
@@ -323,8 +324,8 @@ def main():
 
 
 MANIFEST = {
-    "claimed": False,
-    "text": "",
-    "note": "",
-    "design_ref": "DESIGN.md 3 C33",
+    "claimed": True,
+    "text": "Theorems (Coq, closed under the global context, all strata, address lists, ids, reach values, filters): a source is usable iff its stratum is below the local stratum, it is reachable, its complete Bloom filter does not contain our server id and, unless its stratum is 1, neither its own id nor the reference id it reports is the id of a local address (C33_usable_iff, C33_error_reason); the advertisement computed from the used sources has stratum min(primary stratum + 1, 255) and the primary's id (local stratum and XNON without sources), its filter contains our server id and every id of the used sources' filters (C33_advertise); it is published iff every used NTP source has reported, otherwise the previous snapshot stays (C33_published, C33_primary).  C33_self_stratum1_refuted: the own-address test is skipped for stratum-1 sources (exception to 'this daemon itself' in the stated property).",
+    "note": 'Models the code WITH branch fix-c33 (reference-id comparison added to accept_synchronization); on a tree without it the check reports the confirmed defect (stratum-2 source whose reference id is a local address is accepted).  Trusted: Coq kernel + vm_compute; hand-written model coq/Model/Stratum.v tied to accept_synchronization (direct) and to NtpManager + real NtpSource objects end to end (usable flag given to the controller, update_used_sources/observe) by the correspondence; ReferenceId::from_ip is an oracle (values read back, IPv4 checked); Bloom membership enters the accept model as a boolean (bit level: C34); end-to-end strata are limited to 1..16 by process_message (saturation at 255 is covered by the theorem and direct model only).',
+    "design_ref": 'DESIGN.md 3 C33',
 }
